@@ -37,6 +37,8 @@ var verifC15Video = []verifC15Codec{
 	{name: "AV1", clock: 90000, fmtp: "profile=1", family: 3, prof: "1"},
 	{name: "AV1", clock: 90000, fmtp: "", family: 3, prof: "0"},
 	{name: "vp8", clock: 90000, params: map[string]string{}},
+	// same profile_idc as the Baseline entries, different constraint flags (profile-iop)
+	{name: "H264", clock: 90000, fmtp: "level-asymmetry-allowed=1;packetization-mode=1;profile-level-id=42e01f", family: 1, pm: "1", plid: "42e0"},
 }
 
 var verifC15Audio = []verifC15Codec{
@@ -58,8 +60,8 @@ var verifC15Feedback = [][]RTCPFeedback{
 // exact-only, partial-only, mixed, none, duplicates and order-sensitive cases.
 var verifC15Lists = map[string][2][][]int{
 	"video": {
-		{{0}, {1}, {1, 3}, {3, 1}, {5, 7}, {0, 1}, {10}, {8, 9}, {2, 4}},
-		{{0}, {1}, {2, 3}, {4, 1}, {6, 7}, {0, 2}, {9, 8}, {3}, {7, 5}, {2, 2}},
+		{{0}, {1}, {1, 3}, {3, 1}, {5, 7}, {0, 1}, {10}, {8, 9}, {2, 4}, {0, 11}},
+		{{0}, {1}, {2, 3}, {4, 1}, {6, 7}, {0, 2}, {9, 8}, {3}, {7, 5}, {2, 2}, {11, 0}},
 	},
 	"audio": {
 		{{0}, {1}, {0, 3}, {3, 4}, {2, 0}},
